@@ -262,7 +262,12 @@ func mutateJSON(r *core.Rand, v interface{}, tmplNames []string) (interface{}, s
 				"dateTimeLayoutToRFC3339", "dateTimeToEpoch", "now", "vf_i", "vf_f", "vf_b", "vf_2", "nosuchfunc")
 			var args []interface{}
 			for i := 0; i < r.Intn(5); i++ {
-				switch r.Intn(5) {
+				switch r.Intn(7) {
+				case 5:
+					// an argument without a value on this record (xpath that matches nothing / empty text)
+					args = append(args, map[string]interface{}{"xpath": r.Pick("no_such_child", "no/such/path", "@nope", "*[1=2]")})
+				case 6:
+					args = append(args, map[string]interface{}{"xpath": r.Pick(".", "*", "id", "n", "f1", "a", "b")})
 				case 0:
 					args = append(args, map[string]interface{}{"const": "1", "type": "int"})
 				case 1:
@@ -351,6 +356,11 @@ var c03Adversarial = []string{
 	`{"parser_settings":{"version":"omni.2.1","file_format_type":"json"},"transform_declarations":{"FINAL_OUTPUT":{"custom_func":{"name":"epochToDateTimeRFC3339","args":[{"const":"1"},{"const":"SECOND"},{"const":"UTC"},{"const":"UTC"}]}}}}`,
 	`{"parser_settings":{"version":"omni.2.1","file_format_type":"json"},"transform_declarations":{"FINAL_OUTPUT":{"custom_func":{"name":"now","args":[{"const":"1"}]}}}}`,
 	`{"parser_settings":{"version":"omni.2.1","file_format_type":"json"},"transform_declarations":{"FINAL_OUTPUT":{"custom_func":{"name":"javascript","args":[{"const":"(function f(n){return n<=0?0:f(n-1)+1})(100000)"}]}}}}`,
+	`{"parser_settings":{"version":"omni.2.1","file_format_type":"json"},"transform_declarations":{"FINAL_OUTPUT":{"object":{"a":{"custom_func":{"name":"upper","args":[{"xpath":"a"},{"xpath":"nope"}]}},"b":{"custom_func":{"name":"vf_2","args":[{"xpath":"a"},{"xpath":"b"},{"xpath":"nope"}]}},"c":{"custom_func":{"name":"vf_i","args":[{"xpath":"nope","type":"int"},{"xpath":"nope"},{"xpath":"nope"},{"xpath":"nope"}]}}}}}}`,
+	`{"parser_settings":{"version":"omni.2.1","file_format_type":"csv"},"file_declaration":{"delimiter":",","data_row_index":1,"columns":[{"name":"a"},{"name":"b"}]},"transform_declarations":{"FINAL_OUTPUT":{"object":{"x":{"custom_func":{"name":"lower","args":[{"xpath":"a"},{"xpath":"b"}]}},"y":{"custom_func":{"name":"dateTimeToRFC3339","args":[{"xpath":"a"},{"xpath":"b"},{"xpath":"b"},{"xpath":"b"}]}}}}}}`,
+	// dynamic xpaths that turn out boolean / numeric / string valued on the data
+	`{"parser_settings":{"version":"omni.2.1","file_format_type":"csv"},"file_declaration":{"delimiter":",","data_row_index":1,"columns":[{"name":"a"},{"name":"b"}]},"transform_declarations":{"FINAL_OUTPUT":{"object":{"x":{"array":[{"xpath_dynamic":{"const":"count(*) > 0"}}]},"y":{"array":[{"xpath_dynamic":{"const":"a = a"}},{"xpath_dynamic":{"xpath":"b"}}]},"z":{"xpath_dynamic":{"const":"1 = 1"}}}}}}`,
+	`{"parser_settings":{"version":"omni.2.1","file_format_type":"json"},"transform_declarations":{"FINAL_OUTPUT":{"xpath":"/*","object":{"x":{"array":[{"xpath_dynamic":{"const":"count(*) >= 0"},"object":{"k":{"xpath":"."}}}]},"y":{"array":[{"xpath_dynamic":{"custom_func":{"name":"concat","args":[{"const":"true"},{"const":"()"}]}}}]}}}}}`,
 	// xpath oddities evaluated on data
 	`{"parser_settings":{"version":"omni.2.1","file_format_type":"json"},"transform_declarations":{"FINAL_OUTPUT":{"xpath":"/*[a > 3]","object":{"v":{"xpath":"a[. > 3]"}}}}}`,
 	`{"parser_settings":{"version":"omni.2.1","file_format_type":"xml"},"transform_declarations":{"FINAL_OUTPUT":{"xpath":"//a[b >= c]","object":{"v":{"xpath":"b[. < ../c]"},"w":{"xpath_dynamic":{"xpath":"b"}}}}}}`,
